@@ -1,6 +1,7 @@
 import GoBT.Driver.Proto
 import GoBT.Fee.Model
 import GoBT.Fee.FromTx
+import GoBT.Script.Classify
 import GoBT.Crypto.Hash
 namespace GoBT.Driver
 open GoBT GoBT.Fee
@@ -260,7 +261,24 @@ def c12FromTx (args : List String) (impl : String) : String × String :=
       | none => ("PANIC", "n/a")
       | some (t, ok) =>
         let model := s!"{if ok then "ok" else "err"} n={t.inputs.length} in={",".intercalate (t.inputs.map showInput)}"
-        let pred := if impl.startsWith "panic" || impl.contains "PANIC" then "false:panic" else "true"
+        -- the specification (C12.inputs_from_tx_spend_matching_outputs / …_cover_matching_outputs) on the implementation's answer
+        let f := impl.splitOn " "
+        let want := Crypto.hash160 key
+        let pays (o : Output) : Bool := Script.publicKeyHash o.script == some (.ok want)
+        let pred :=
+          if impl.startsWith "panic" || impl.contains "PANIC" then "false:panic" else
+          match parseList? parseInput? (fieldD f "in") with
+          | none => "false:unreadable-inputs"
+          | some ins =>
+            let good (i : Input) : Bool :=
+              match pvs.outputs[i.vout]? with
+              | some o => pays o && i.prevSats == o.sats && i.prevScript == some o.script && i.prevTxID == prevID &&
+                          i.unlocking == none && i.sequence == 0xFFFFFFFF
+              | none => false
+            if !ins.all good then "false:input-does-not-spend-a-matching-output"
+            else if impl.startsWith "ok" && ins.map (·.vout) != ((List.range pvs.outputs.length).filter fun k => (pvs.outputs[k]?.map pays).getD false)
+              then "false:matching-output-not-spent-exactly-once-in-order"
+            else "true"
         (model, pred)
     | _, _ => ("bad-op", "n/a")
   | _ => ("bad-op", "n/a")
